@@ -203,6 +203,10 @@ finding(
     "P74", ["C14"], "fixed", "json_schema parser on an ordinary hand-written schema: the keywords `nullable` (optional property), `format` and `items` stay behind as extra keys of the parameter entry", "77f426c",
     witnesses={"C14": [{"kind": "json-handshaped", "schema": {"$id": "https://x/foo.schema.json", "type": "object", "properties": {"p": {"default": 0, "nullable": True, "type": "array"}, "q": {"type": "string", "format": "date-time"}, "s": {"type": "array", "items": {"type": "integer"}}}}}]},
 )
+finding(
+    "P75", ["C14"], "fixed", "sqlalchemy parsers on an ordinary hand-written model: Column options `index=`, `unique=` and a `comment=` next to a `doc=` stay behind as extra keys of the parameter entry", "33a9025",
+    witnesses={"C14": [{"both": False, "form": "class", "kind": "sql-handshaped", "names": ["a"], "src": "class Foo(Base):\n    \"\"\"\n    The Foo model\n    \"\"\"\n    __tablename__ = \"foo\"\n\n    a = Column(String(32), index=True, unique=True, doc='the a', comment='the a again')\n"}]},
+)
 finding("P26", ["C07"], "open", "doctrans drops comments inside a rewritten multi-line def header")
 finding("P27", ["C07"], "open", "doctrans turns a one-line `def f(a=1): return a` into invalid Python")
 finding("P28", ["C07"], "open", "doctrans does not recognise a raw docstring r\"\"\"...\"\"\": a second string is inserted")
